@@ -19,6 +19,7 @@ MODULES = {
     "vk_lfn": "filesystem/filename.rs",
     "vk_handles": "filesystem/handles.rs",
     "vk_fs": "filesystem/mod.rs",
+    "vk_fat": "fat/volume.rs",
 }
 # harness module -> rust path of the module
 MODPATH = {
@@ -30,7 +31,13 @@ MODPATH = {
     "vk_lfn": "filesystem::filename::vk_lfn",
     "vk_handles": "filesystem::handles::vk_handles",
     "vk_fs": "filesystem::vk_fs",
+    "vk_fat": "fat::volume::vk_fat",
 }
+
+
+# harness modules that work on whole block images: Kani concrete playback's JSON trace
+# exhausts memory there, counterexamples are confirmed by a second SAT back end instead
+HEAVY_MODULES = {"vk_fat", "vk_fsop"}
 
 
 def full_name(h):
@@ -87,11 +94,10 @@ H("C19", "vk_sd_crc", "c19_crc7_step_lemma", desc="crc7(m++[b]) == frame(bitseri
 H("C19", "vk_sd_crc", "c19_crc7_prefix_onto", desc="1-byte prefix map injective on 0..128 (onto all 128 remainders)", bounds="full width")
 H("C19", "vk_sd_crc", "c19_crc7_direct_6", desc="all messages len 0..=6 equal bit-serial reference (command frames are 5 bytes)", bounds="len<=6")
 
-H("C19", "vk_sd_crc", "c19_crc_len_structure_40", desc="crc16/crc7 are folds over every byte: all lengths 0..=40, sparse symbolic content, vs reference", bounds="len<=40, 2 symbolic bytes at symbolic positions", timeout=1200, cost=2)
+H("C19", "vk_sd_crc", "c19_crc_len_structure_40", tier="thorough", desc="crc16/crc7 are folds over every byte: all lengths 0..=40, sparse symbolic content, vs reference", bounds="len<=40, 2 symbolic bytes at symbolic positions", timeout=1200, cost=2)
 H("C19", "vk_sd_crc", "c19_crc_len_structure_130", tier="thorough", desc="same, all lengths 0..=130", bounds="len<=130", timeout=3600, cost=4)
-H("C19", "vk_sd_crc", "c19_crc_len_structure_520", tier="thorough", desc="same, all lengths 0..=520", bounds="len<=520", timeout=7200, cost=6, mem_gb=20)
-H("C19", "vk_sd_crc", "c19_crc7_direct_17", tier="thorough", desc="all messages len 0..=17 equal reference (15/16-byte register images)", bounds="len<=17", timeout=3600, cost=3)
-H("C19", "vk_sd_crc", "c19_crc16_direct_17", tier="thorough", desc="all messages len 0..=17 equal reference", bounds="len<=17", timeout=3600, cost=3)
+H("C19", "vk_sd_crc", "c19_crc7_direct_17", desc="all messages len 0..=17 equal reference (15/16-byte register images)", bounds="len<=17", timeout=3600, cost=3)
+H("C19", "vk_sd_crc", "c19_crc16_direct_17", desc="all messages len 0..=17 equal reference", bounds="len<=17", timeout=3600, cost=3)
 
 # ---------------------------------------------------------------------------
 # C18 codecs
@@ -151,42 +157,46 @@ PROPS["C17"] = dict(
             "carried unit is the only coupling) - that composition is an argument, not a query; buffers longer than 64 bytes",
     assumptions=["reference lossy UTF-16 decoder + UTF-8 encoder written in the harness (ref_push)"],
 )
-H("C17", "vk_lfn", "c17_lfn_push_edges", desc="one push, units 0-3,12 symbolic: no panic, written bytes = UTF-8(lossy(fragment++carry)), overflow/carry flags, old bytes untouched", bounds="buffer<=64, any state", timeout=1800, cost=4)
-H("C17", "vk_lfn", "c17_lfn_push_head", desc="one push, units 0-6 symbolic (NUL terminator positions)", bounds="buffer<=64, any state", timeout=1800, cost=4)
-H("C17", "vk_lfn", "c17_lfn_push_full", tier="thorough", desc="one push, all 13 units symbolic", bounds="buffer<=64, any state", timeout=7200, cost=8, mem_gb=24)
+H("C17", "vk_lfn", "c17_lfn_push_short", desc="one push, 3 symbolic units + NUL, symbolic carry: no panic, written bytes = UTF-8(lossy(fragment++carry)), flags, old bytes untouched", bounds="buffer<=16, any state", timeout=1500, cost=4)
+H("C17", "vk_lfn", "c17_lfn_push_full_capacity", desc="one push, 13 units (first+last symbolic, ASCII between), symbolic carry: no panic (14 decoded chars), content, flags", bounds="buffer<=32, any state", timeout=1500, cost=4)
+H("C17", "vk_lfn", "c17_lfn_push_edges", tier="thorough", desc="one push, units 0-3,12 symbolic, 2-byte filler", bounds="buffer<=48, any state", timeout=7200, cost=6, mem_gb=24)
+H("C17", "vk_lfn", "c17_lfn_push_full", tier="thorough", desc="one push, all 13 units symbolic: totality, space accounting, flags", bounds="buffer<=64, any state", timeout=10800, cost=8, mem_gb=30)
 H("C17", "vk_lfn", "c17_lfn_single_fragment_name", desc="fresh buffer + one fragment: as_str == lossy decoding of the name", bounds="units 0-2,12 symbolic", timeout=1800, cost=2)
-H("C17", "vk_lfn", "c17_lfn_two_pushes_utf8", desc="two pushes into a <=16 byte buffer: as_str is valid UTF-8 (direct validation)", bounds="5 symbolic units", timeout=1800, cost=2)
+H("C17", "vk_lfn", "c17_lfn_two_pushes_utf8", tier="thorough", desc="two pushes into a <=16 byte buffer: as_str is valid UTF-8 (direct validation)", bounds="5 symbolic units", timeout=3600, cost=2, mem_gb=24)
 
 # ---------------------------------------------------------------------------
-# C08 handles / limits / lock
+# FatVolume-level harnesses shared by C03 C04 C05 C06 C10 C16
 # ---------------------------------------------------------------------------
-PROPS["C08"] = dict(
-    bounds="one call from an arbitrary table state: limits MAX_VOLUMES=MAX_DIRS=MAX_FILES=2, table lengths 0..=2 symbolic, "
-           "all handle values and the generator state symbolic (32 bit), pairwise distinct and != next id; every entry "
-           "point that takes a handle; lock: every result-returning public method called from an iterate_dir callback",
-    outside="limits other than 2 (the table code is generic over the capacity; not re-instantiated); handle distinctness "
-            "needs 'fewer than 2^32 handles generated since the oldest open handle' (wrap-around reuse after 2^32 "
-            "generations is documented by the authors and outside the claim); histories are covered by the one-step "
-            "induction over the table invariant",
-    assumptions=["table invariant: handles pairwise distinct across kinds, none equal to the generator's next id"],
-)
-for n, d in [
-    ("c08_generator_step", "generate() returns next id and advances by exactly 1 mod 2^32"),
-    ("c08_open_root_dir", "fresh handle (also twice) / TooManyOpenDirs exactly at capacity / BadHandle for unknown volume / frame"),
-    ("c08_open_dir_dot", "open_dir(parent, '.') fresh handle, designates parent, limit, stale parent"),
-    ("c08_close_dir", "close frees exactly that slot; stale handle BadHandle; closed handle rejected afterwards"),
-    ("c08_close_file", "close_file frees exactly that slot; stale handle BadHandle; rejected afterwards"),
-    ("c08_stale_file_read", "read (any buffer length 0..=2) rejects a handle that is not open, no effect"),
-    ("c08_stale_file_write", "write rejects a handle that is not open, no effect"),
-    ("c08_stale_file_flush_close", "flush_file/close_file reject a handle that is not open, no effect"),
-    ("c08_stale_file_seek_query", "eof/seek x3/length/offset reject a handle that is not open"),
-    ("c08_stale_dir_open_close", "open_dir/close_dir reject a stale directory handle"),
-    ("c08_stale_dir_find_iterate", "find_directory_entry/iterate_dir/iterate_dir_lfn reject a stale directory handle"),
-    ("c08_stale_dir_open_file", "open_file_in_dir (all modes) rejects a stale directory handle"),
-    ("c08_stale_dir_delete_mkdir", "delete_file_in_dir/make_dir_in_dir reject a stale directory handle"),
-    ("c08_lookup_functions", "get_file/dir/volume_by_id: Ok(i) iff table[i] carries the handle, else BadHandle (symbolic tables)"),
-    ("c08_limits_full_tables", "TooManyOpenFiles/Dirs/Volumes at capacity before any device access"),
-    ("c08_close_volume_and_reopen", "close_volume refused while in use; frees slot; stale; second open of same index refused"),
-    ("c08_has_open_handles", "has_open_handles() == dirs non-empty || files non-empty"),
-]:
-    H("C08", "vk_vm", n, desc=d, bounds="tables<=2 each, handles symbolic", timeout=900)
+UW_ALLOC = [("find_next_free_cluster", r"while this_fat_ent_offset <= Block::LEN - [24]", 12),
+            ("find_next_free_cluster", r"while current_cluster\.0 < end_cluster\.0", 3)]
+UW_ALLOC_FULLSCAN = [("find_next_free_cluster", r"while this_fat_ent_offset <= Block::LEN - [24]", 257),
+                     ("find_next_free_cluster", r"while current_cluster\.0 < end_cluster\.0", 3)]
+PROPS["C05"] = dict(bounds="(in progress)", outside="")
+H("C05", "vk_fat", "c05_next_cluster_fat16", desc="next_cluster: every 16-bit FAT entry value classified per spec (bad 0xFFF7, EOC 0xFFF8.., else link)", bounds="all 2^16 entry values")
+H("C05", "vk_fat", "c05_next_cluster_fat32", desc="next_cluster: every 32-bit FAT entry value classified per spec (28-bit)", bounds="all 2^32 entry values")
+UW_FIND = [("find_next_free_cluster", r"while this_fat_ent_offset <= Block::LEN - [24]", 10),
+           ("find_next_free_cluster", r"while current_cluster\.0 < end_cluster\.0", 3)]
+H("C05", "vk_fat", "c05_find_free16_from2", desc="find_next_free_cluster: first free cluster in [start,end), never a slack entry; Err iff none", bounds="FAT16: 4 clusters + 2 slack entries symbolic, start 2", unwindset=UW_FIND, timeout=1200, cost=2)
+H("C05", "vk_fat", "c05_find_free16_from4", desc="same, scan start 4", bounds="FAT16 4+2 symbolic", unwindset=UW_FIND, timeout=1200, cost=2)
+H("C05", "vk_fat", "c05_find_free16_from5_dirty", tier="thorough", desc="same, start 5, rest of FAT sector non-zero", bounds="FAT16 4+2 symbolic, fill 0xFFF7", unwindset=UW_ALLOC_FULLSCAN, timeout=3000, cost=3)
+H("C05", "vk_fat", "c05_find_free32_from2", desc="FAT32 find_next_free_cluster", bounds="FAT32: 4 clusters + 2 slack symbolic, start 2", unwindset=UW_FIND, timeout=1200, cost=2)
+H("C05", "vk_fat", "c05_find_free32_from3", tier="thorough", desc="FAT32 find_next_free_cluster", bounds="start 3", unwindset=UW_FIND, timeout=1200, cost=2)
+_ad = "alloc_cluster on concrete (free map, prev, hint) instances with stale cluster contents symbolic: Ok iff a free in-range cluster exists; result in range, was free, EOC, prev linked; frame at a symbolic entry; region; failed alloc leaves the FAT unchanged"
+H("C05", "vk_fat", "c05_alloc16_a_3e_p2", desc=_ad, bounds="free map 0x3E, prev 2, zero=False, hint None", unwindset=UW_ALLOC, timeout=600, cost=2, mem_gb=16)
+H("C05", "vk_fat", "c05_alloc16_a_38_p3_h4", desc=_ad, bounds="free map 0x38, prev 3, zero=False, hint 4", unwindset=UW_ALLOC, timeout=600, cost=2, mem_gb=16)
+H("C05", "vk_fat", "c05_alloc16_a_30_p2", desc=_ad, bounds="free map 0x30, prev 2, zero=False, hint None", unwindset=UW_ALLOC, timeout=600, cost=2, mem_gb=16)
+H("C05", "vk_fat", "c05_alloc16_a_3f_none", desc=_ad, bounds="free map 0x3F, prev 0, zero=False, hint None", unwindset=UW_ALLOC, timeout=600, cost=2, mem_gb=16)
+H("C05", "vk_fat", "c05_alloc16_a_31_p5_h5", tier="thorough", desc=_ad, bounds="free map 0x31, prev 5, zero=False, hint 5", unwindset=UW_ALLOC, timeout=600, cost=2, mem_gb=16)
+H("C05", "vk_fat", "c05_alloc16_a_34_p2_h1000", tier="thorough", desc=_ad, bounds="free map 0x34, prev 2, zero=False, hint 1000", unwindset=UW_ALLOC, timeout=600, cost=2, mem_gb=16)
+H("C05", "vk_fat", "c05_alloc16_a_32_p2_h6", tier="thorough", desc=_ad, bounds="free map 0x32, prev 2, zero=False, hint 6", unwindset=UW_ALLOC, timeout=600, cost=2, mem_gb=16)
+H("C05", "vk_fat", "c05_alloc16_a_00_p2", tier="thorough", desc=_ad, bounds="free map 0x00, prev 2, zero=False, hint None", unwindset=UW_ALLOC, timeout=600, cost=2, mem_gb=16)
+H("C05", "vk_fat", "c05_alloc16_a_08_p2", tier="thorough", desc=_ad, bounds="free map 0x08, prev 2, zero=False, hint None", unwindset=UW_ALLOC, timeout=600, cost=2, mem_gb=16)
+H("C05", "vk_fat", "c05_alloc16_a_18_p2", tier="thorough", desc=_ad, bounds="free map 0x18, prev 2, zero=False, hint None", unwindset=UW_ALLOC, timeout=600, cost=2, mem_gb=16)
+H("C05", "vk_fat", "c05_alloc16_a_3e_p2_zero", tier="thorough", desc=_ad, bounds="free map 0x3E, prev 2, zero=True, hint None", unwindset=UW_ALLOC, timeout=600, cost=2, mem_gb=16)
+H("C05", "vk_fat", "c05_alloc16_a_38_p4_zero", tier="thorough", desc=_ad, bounds="free map 0x38, prev 4, zero=True, hint None", unwindset=UW_ALLOC, timeout=600, cost=2, mem_gb=16)
+H("C05", "vk_fat", "c05_alloc16_a_30_p5_zero", tier="thorough", desc=_ad, bounds="free map 0x30, prev 5, zero=True, hint None", unwindset=UW_ALLOC, timeout=600, cost=2, mem_gb=16)
+PROPS["C04"] = dict(bounds="(in progress)", outside="")
+H("C04", "vk_fat", "c04_update_fat16_frame", desc="update_fat FAT16: only the addressed entry changes; only FAT sector written", bounds="FAT sector fully symbolic, cluster 2..8 symbolic")
+H("C04", "vk_fat", "c04_cluster_to_block_in_data_area", desc="cluster_to_block inside the data area for fully symbolic geometry", bounds="all geometries satisfying the mount invariant, bpc 1..128")
+PROPS["C16"] = dict(bounds="(in progress)", outside="")
+H("C16", "vk_fat", "c16_update_fat32_both_copies", desc="update_fat FAT32 2 FATs: both copies written and identical; high nibble preserved; frame", bounds="FAT sector fully symbolic, cluster 2..8 symbolic")
